@@ -4,9 +4,13 @@ import os
 
 from framework import Func
 from bip_utils import (
-    MoneroLanguages, MoneroMnemonicDecoder, MoneroMnemonicEncoder, MoneroMnemonicValidator, MoneroSeedGenerator,
+    AlgorandMnemonicDecoder, AlgorandMnemonicEncoder, AlgorandMnemonicValidator, AlgorandSeedGenerator,
+    Bip39Languages, MoneroLanguages, MoneroMnemonicDecoder, MoneroMnemonicEncoder, MoneroMnemonicValidator, MoneroSeedGenerator,
 )
 from bip_utils.monero.mnemonic import MoneroMnemonic
+from bip_utils.algorand.mnemonic import AlgorandMnemonic
+from bip_utils.algorand.mnemonic.algorand_mnemonic_utils import AlgorandMnemonicUtils
+from bip_utils.bip.bip39.bip39_mnemonic_utils import Bip39WordsListGetter
 from bip_utils.monero.mnemonic.monero_mnemonic_utils import MoneroWordsListGetter
 from bip_utils.electrum.mnemonic_v1.electrum_v1_mnemonic import ElectrumV1Languages
 from bip_utils.electrum.mnemonic_v1.electrum_v1_mnemonic_utils import ElectrumV1WordsListGetter
@@ -57,6 +61,10 @@ def _wl(getter, lang):
 XMR = [_wl(MoneroWordsListGetter, lang) for lang in XL]
 EV1 = _wl(ElectrumV1WordsListGetter, ElectrumV1Languages.ENGLISH)
 XMR_PLEN = [1, 4, 3, 4, 4, 4, 4, 4, 4, 4]      # only used by generators to build candidate phrases
+B39L = list(Bip39Languages)
+B39 = [_wl(Bip39WordsListGetter, lang) for lang in B39L]
+B39_IDX = [{w: i for i, w in enumerate(ws)} for _, ws in B39]
+B39_EN = B39L.index(Bip39Languages.ENGLISH)
 CHUNK_LISTS = XMR + [EV1]                      # selector 0..9 Monero, 10 Electrum v1
 XMR_IDX = [{w: i for i, w in enumerate(ws)} for _, ws in XMR]
 CHUNK_IDX = XMR_IDX + [{w: i for i, w in enumerate(EV1[1])}]
@@ -73,6 +81,11 @@ def _phrase(cls, words):
     except Exception:  # noqa
         pass
     return cls.FromList(list(words))
+
+
+def _npass(cls, words):
+    """How often Bip39Mnemonic normalises the words on the path _phrase takes: FromString twice, FromList once."""
+    return 2 if isinstance(_phrase(cls, words), str) else 1
 
 
 def _packed(idx, a, b, c):
@@ -188,17 +201,83 @@ def direct_xmr_auto(a):
     return None if d == e else "Monero %s phrase of %s decodes to %s under automatic detection" % (XL[l].name, e.hex(), d.hex())
 
 
+# ------------------------------------------------------------------ Algorand
+
+def impl_algo_encode(a):
+    return AlgorandMnemonicEncoder().Encode(a[0]).ToList()
+
+
+def impl_algo_decode(a):
+    return AlgorandMnemonicDecoder().Decode(_phrase(AlgorandMnemonic, a[0]))
+
+
+def impl_algo_seed(a):
+    return AlgorandSeedGenerator(_phrase(AlgorandMnemonic, a[0])).Generate()
+
+
+def impl_algo_is_valid(a):
+    return AlgorandMnemonicValidator().IsValid(_phrase(AlgorandMnemonic, a[0]))
+
+
+def impl_convert_bits(a):
+    r = AlgorandMnemonicUtils.ConvertBits(a[0], a[1], a[2])
+    return [] if r is None else [r]
+
+
+def direct_algo_encode(a):
+    e = a[0]
+    try:
+        ws = impl_algo_encode(a)
+    except ValueError:
+        return None
+    if len(ws) != 25:
+        return "Algorand encoding has %d words" % len(ws)
+    d = AlgorandMnemonicDecoder().Decode(" ".join(ws))
+    return None if d == e else "Algorand decode(encode(%s)) = %s" % (e.hex(), d.hex())
+
+
+def direct_algo_decode(a):
+    """Accepted phrases are canonical: a 32-byte key that re-encodes to the (normalised) phrase."""
+    try:
+        d = impl_algo_decode(a)
+    except Exception:  # noqa
+        return None
+    if len(d) != 32:
+        return "accepted Algorand phrase decodes to %d bytes" % len(d)
+    back = AlgorandMnemonicEncoder().Encode(d).ToList()
+    given = AlgorandMnemonic.FromList(list(a[0])).ToList()
+    return None if back == given else "accepted Algorand phrase %r decodes to %s which encodes to another phrase (%s ...)" % (
+        " ".join(given[22:]), d.hex(), " ".join(back[22:]))
+
+
+def direct_convert_bits(a):
+    """Regrouping preserves the little-endian bit string (compared on integers)."""
+    data, f, t = a
+    r = AlgorandMnemonicUtils.ConvertBits(data, f, t)
+    if any(v < 0 or v >> f for v in data):
+        return None if r is None else "ConvertBits accepted an out-of-range value"
+    if r is None:
+        return "ConvertBits refused in-range values"
+    vi = sum(v << (f * i) for i, v in enumerate(data))
+    vo = sum(v << (t * i) for i, v in enumerate(r))
+    if vi != vo or any(v >> t for v in r) or len(r) != -(-len(data) * f // t):
+        return "ConvertBits(%r, %d, %d) = %r does not carry the same bits" % (data, f, t, r)
+    return None
+
+
 _M = [None]    # the model driver of the current run (for the 'either' checks)
 
 
-def _either(model_names, impl, a, margs):
+def _either(model_names, impl, a, margs, margs_list=None):
     """The implementation behaves either as the property-conformant model or as the model of the present code."""
     from framework import run_impl, canon_res
     m = _M[0]
     if m is None:
         return None
     ir = canon_res(run_impl(lambda: impl(a)))
-    rs = [canon_res(m.call(nm, *margs)) for nm in model_names]
+    if margs_list is None:
+        margs_list = [margs] * len(model_names)
+    rs = [canon_res(m.call(nm, *ma)) for nm, ma in zip(model_names, margs_list)]
     return None if ir in rs else "implementation %r is neither the conformant model %r nor the current-code model %r" % (
         ir, rs[0], rs[-1])
 
@@ -220,6 +299,19 @@ FUNCS = {
     "xmr_is_valid": Func(model=lambda m, a: m.call("xmr_is_valid", a[0], a[1]), impl=impl_xmr_is_valid),
     "xmr_decode_either": Func(direct=lambda a: _either(["xmr_decode", "xmr_decode_current"], impl_xmr_decode, a, a)),
     "xmr_auto_roundtrip": Func(direct=direct_xmr_auto),
+    "algo_convert_bits": Func(model=lambda m, a: m.call("algo_convert_bits", a[0], a[1], a[2]), impl=impl_convert_bits,
+                              direct=direct_convert_bits),
+    "algo_encode": Func(model=lambda m, a: m.call("algo_encode", a[0]), impl=impl_algo_encode,
+                        direct=direct_algo_encode),
+    "algo_decode": Func(model=lambda m, a: m.call("algo_decode", 1, _npass(AlgorandMnemonic, a[0]), a[0]),
+                        impl=impl_algo_decode, direct=direct_algo_decode),
+    "algo_seed": Func(model=lambda m, a: m.call("algo_decode", 1, _npass(AlgorandMnemonic, a[0]), a[0]),
+                      impl=impl_algo_seed),
+    "algo_is_valid": Func(model=lambda m, a: m.call("algo_is_valid", 1, _npass(AlgorandMnemonic, a[0]), a[0]),
+                          impl=impl_algo_is_valid),
+    "algo_decode_either": Func(direct=lambda a: _either(
+        ["algo_decode", "algo_decode"], impl_algo_decode, a, None,
+        margs_list=[[1, _npass(AlgorandMnemonic, a[0]), a[0]], [0, _npass(AlgorandMnemonic, a[0]), a[0]]])),
 }
 
 # ------------------------------------------------------------------ known findings: predicates and replays
@@ -253,6 +345,32 @@ def f8_chunk_overflow_replay():
     ws = XMR[2][1]
     d = MnemonicUtils.WordsToBytesChunk(ws[0], ws[0], ws[1625], XMR[2][0], "little")
     return None if len(d) == 4 else "WordsToBytesChunk(%r, %r, %r) = %s: %d bytes" % (ws[0], ws[0], ws[1625], d.hex(), len(d))
+
+
+def f9_algorand_dropped_byte(fn, args, rec):
+    """F9: 25 English words whose 24th word has an index >= 8 (non-zero bits in the dropped 33rd byte)."""
+    if fn not in ("algo_decode", "algo_seed", "algo_is_valid"):
+        return False
+    try:
+        ws = AlgorandMnemonic.FromList(list(args[0])).ToList()
+    except Exception:  # noqa
+        return False
+    idx = B39_IDX[B39_EN]
+    return len(ws) == 25 and all(w in idx for w in ws) and idx[ws[23]] >= 8
+
+
+def f9_algorand_dropped_byte_replay():
+    e = bytes(32)
+    ws = AlgorandMnemonicEncoder().Encode(e).ToList()
+    words = B39[B39_EN][1]
+    ws2 = list(ws)
+    ws2[23] = words[B39_IDX[B39_EN][ws[23]] + 8]
+    try:
+        d = AlgorandMnemonicDecoder().Decode(" ".join(ws2))
+    except Exception:  # noqa
+        return None
+    return "phrase with 24th word %r (index 8) instead of %r decodes to the same key %s" % (ws2[23], ws[23], d.hex()[:16] + "...") \
+        if d == e else None
 
 
 def n1_monero_auto_ambiguous(fn, args, rec):
@@ -458,8 +576,62 @@ def _gen_chunk(ctx):
     _sweep_triples(ctx)
 
 
+def _gen_algorand(ctx):
+    rng = ctx.rng
+    words = B39[B39_EN][1]
+    idx = B39_IDX[B39_EN]
+    others = [ws for j, (_, ws) in enumerate(B39) if j != B39_EN] + [EV1[1], XMR[2][1]]
+    # bit regrouping on its own
+    for f, t in ((8, 11), (11, 8), (8, 5), (5, 8), (1, 3), (7, 7)):
+        ctx.run("algo_convert_bits", [[], f, t], "empty", trivial=True)
+        for _ in range(ctx.n(12, 150)):
+            n = rng.choice([1, 2, 3, 4, 8, 11, 24, 32, 33])
+            data = [rng.randrange(1 << f) for _ in range(n)]
+            if rng.randrange(8) == 0:
+                data[rng.randrange(n)] = (1 << f) + rng.randrange(3)
+            ctx.run("algo_convert_bits", [data, f, t], "rand")
+    ents = [bytes(32), b"\xff" * 32, bytes(31) + b"\x80", bytes(31) + b"\x1f", bytes(31) + b"\xe0", b"\x01" + bytes(31)]
+    ents += [bytes(rng.randrange(256) for _ in range(32)) for _ in range(ctx.n(60, 1500))]
+    for e in ents:
+        ctx.run("algo_encode", [e], "valid")
+        ws = impl_algo_encode([e])
+        ctx.run("algo_decode", [ws], "valid")
+        ctx.run("algo_decode_either", [ws], "valid")
+        if rng.randrange(3) == 0:
+            ctx.run("algo_seed", [ws], "valid")
+            ctx.run("algo_is_valid", [ws], "valid")
+        # F9 class: the 24th word moved by a multiple of 8
+        w2 = list(ws)
+        w2[23] = words[idx[ws[23]] + 8 * rng.randrange(1, 256)]
+        ctx.run("algo_decode", [w2], "24th-word+8k")
+        ctx.run("algo_decode_either", [w2], "24th-word+8k")
+        if rng.randrange(3) == 0:
+            ctx.run("algo_is_valid", [w2], "24th-word+8k")
+            ctx.run("algo_seed", [w2], "24th-word+8k")
+        for _ in range(2):
+            mw = _mutate_phrase(rng, ws, words, others)
+            ctx.run("algo_decode", [mw], "mutated")
+            ctx.run("algo_decode_either", [mw], "mutated")
+            if rng.randrange(3) == 0:
+                ctx.run("algo_is_valid", [mw], "mutated")
+        # case / normalisation of otherwise valid words: the Mnemonic class lower-cases and NFKD-normalises
+        w3 = [w.upper() if rng.randrange(2) else w.capitalize() for w in ws]
+        ctx.run("algo_decode", [w3], "case-changed")
+    for n in (0, 1, 16, 31, 33, 64):
+        ctx.run("algo_encode", [bytes(rng.randrange(256) for _ in range(n))], "bad-size")
+    if not ctx.quick:      # every replacement of the 24th word of one phrase: 2048 cases
+        e = bytes(rng.randrange(256) for _ in range(32))
+        ws = impl_algo_encode([e])
+        for w in words:
+            w2 = list(ws)
+            w2[23] = w
+            ctx.run("algo_decode", [w2], "every-24th-word")
+        ctx.note_exhaustive("Algorand: all 2048 replacements of the 24th word of one phrase")
+
+
 def generate(ctx):
     _M[0] = ctx.m
     _gen_text(ctx)
     _gen_chunk(ctx)
     _gen_monero(ctx)
+    _gen_algorand(ctx)
